@@ -204,11 +204,60 @@ def run_workers(binary, prop, seed, total, budget_s, outdir, extra_args=None):
     return records, bad
 
 
+def run_blocks(binary, prop, seed, n, outdir, extra_args=None):
+    """Runs 0..n again, but in contiguous blocks per worker process (stride 1): every run then has
+    other predecessors in its process than under the strided assignment of run_workers."""
+    os.makedirs(outdir, exist_ok=True)
+    for f in glob.glob(os.path.join(outdir, "*.jsonl")):
+        os.remove(f)
+    env = env_offline({"LD_PRELOAD": SHIM})
+    block = (n + NPROC - 1) // NPROC
+    procs = []
+    for w in range(NPROC):
+        lo, hi = w * block, min(n, (w + 1) * block)
+        if lo >= hi:
+            continue
+        out = os.path.join(outdir, "b%02d.jsonl" % w)
+        cmd = [binary, "run", "--prop", prop, "--seed", str(seed), "--from", str(lo), "--to", str(hi), "--stride", "1", "--offset", "0", "--out", out, "--samples", "0"] + (extra_args or [])
+        procs.append((lo, out, subprocess.Popen(cmd, env=env, stdout=subprocess.DEVNULL, stderr=subprocess.DEVNULL, preexec_fn=_limit_memory)))
+    recs = {}
+    for lo, out, p in procs:
+        p.wait()
+        if os.path.exists(out):
+            for line in open(out):
+                try:
+                    r = json.loads(line)
+                except json.JSONDecodeError:
+                    continue
+                r["_proc_from"] = lo
+                r["_stride"] = 1
+                recs[r["run"]] = r
+    return recs
+
+
 def replay_file(binary, path):
     try:
         doc = json.load(open(path))
     except Exception:
         doc = {}
+    if "arrangements" in doc:
+        # the quiescent reference of one run under two different process histories
+        digs = []
+        last = None
+        for pf in doc["arrangements"]:
+            rec = prefix_replay(binary, doc["property"], doc["seed"], doc["run"], pf["from"], pf["stride"], pf.get("extra_args"))
+            if rec is None:
+                return 2, None
+            digs.append(rec.get("ref_digest"))
+            last = rec
+        if len(set(digs)) > 1:
+            v = {"property": doc["property"], "invariant": doc["invariant"], "class": doc["class"],
+                 "detail": "the quiescent reference table of run %d differs between two process histories: %s" % (doc["run"], digs), "witness": {"ref_digests": digs}}
+            if not isinstance(last["verdict"], dict) or "Violations" not in last["verdict"]:
+                last["verdict"] = {"Violations": []}
+            last["verdict"]["Violations"].append(v)
+            return 1, last
+        return 0, last
     if "prefix" in doc:
         pf = doc["prefix"]
         rec = prefix_replay(binary, doc["property"], doc["seed"], doc["run"], pf["from"], pf["stride"], pf.get("extra_args"))
@@ -272,11 +321,14 @@ def handle_violations(binary, prop, seed, records, opens, max_minimise=6, payloa
         doc = {"property": prop, "invariant": inv, "class": cls, "violation": x, payload: r[payload], "seed": seed, "run": r["run"]}
         if inv == "hash_seed_dependence":
             doc["hash_sweep"] = [0] + list(x["witness"].get("salts", []))
+        if inv == "process_history_dependence":
+            doc["arrangements"] = x.get("_arrangements", [])
+            doc.pop(payload, None)
         json.dump(doc, open(raw, "w"), indent=1)
         final = os.path.join(REPLAY_DIR, "%s-%d-%d-%s.json" % (prop, seed, r["run"], tag))
         env = env_offline({"LD_PRELOAD": SHIM})
         ok_min = False
-        if minimised < max_minimise and inv != "hash_seed_dependence":
+        if minimised < max_minimise and inv not in ("hash_seed_dependence", "process_history_dependence"):
             minimised += 1
             m = subprocess.run([binary, "minimise", "--file", raw, "--out", final], env=env, capture_output=True, text=True)
             ok_min = m.returncode == 0 and os.path.exists(final)
@@ -450,6 +502,25 @@ def check_sim_a(tier, seed):
             return 2
         sweep[salt] = {r["run"]: r for r in recs}
     main_by_run = {r["run"]: r for r in records}
+    # process-history sweep: the same first histories again, in contiguous blocks per process
+    # (other predecessors than under the strided assignment); the quiescent reference tables
+    # must not depend on what the process compiled before
+    rearranged = run_blocks(BIN_A, prop, seed, n_sweep, os.path.join(WORK, prop + "-blocks"), depth_args or None)
+    history_compared = 0
+    for run, rb in sorted(rearranged.items()):
+        ra = main_by_run.get(run)
+        if ra is None:
+            continue
+        history_compared += 1
+        if ra["ref_digest"] != rb["ref_digest"]:
+            v = {"property": prop, "invariant": "process_history_dependence", "class": "unclassified",
+                 "detail": "the quiescent reference table of run %d (compiled right after reset()) differs between two process histories: after runs %d, %d, ... of a strided worker it is %s, after runs %d.. of a block worker it is %s" % (run, ra["_proc_from"], ra["_proc_from"] + ra["_stride"], ra["ref_digest"], rb["_proc_from"], rb["ref_digest"]),
+                 "witness": {"run": run},
+                 "_arrangements": [{"from": ra["_proc_from"], "stride": ra["_stride"], "extra_args": depth_args}, {"from": rb["_proc_from"], "stride": 1, "extra_args": depth_args}]}
+            if ra["verdict"] == "Ok":
+                ra["verdict"] = {"Violations": [v]}
+            else:
+                ra["verdict"]["Violations"].append(v)
     sweep_compared = 0
     for run in sorted(sweep[salts[0]].keys()):
         ds = set()
@@ -490,6 +561,7 @@ def check_sim_a(tier, seed):
         ops += r["stats"]["ops"]
         events += r["stats"]["events"]
     faults["hash_seed_sweep_replays"] = sweep_compared * len(salts)
+    faults["process_history_rearrangements"] = history_compared
     wall = time.time() - t0
     samples = []
     for r in records:
@@ -510,6 +582,7 @@ def check_sim_a(tier, seed):
             "concurrent_histories": len(records),
             "distinct_interleavings_multi_thread": len(inter),
             "hash_seed_sweep": {"histories": sweep_compared, "hash_seeds_per_history": len(salts) + 1},
+            "process_history_sweep": {"histories_recompiled_under_another_process_history": history_compared},
             "runs_per_hour": int(len(records) / max(wall, 1e-9) * 3600),
             "seeds": {"VERIF_SEED": seed, "run_indices": [0, max(r["run"] for r in records)], "runs_completed": len(records), "runs_planned": total},
             "logical_time": {"operations_executed": ops, "history_events": events, "note": "no simulated wall-clock exists in this system; logical time is operations and scheduler-ordered events"},
